@@ -253,26 +253,32 @@ def tryU32 (b : Nat) : Option Nat :=
 
 /-! ## Errors and the host formatter -/
 
+/-- Outcomes of rendering one directive (`do_std_format_code` and below). -/
+inductive RErr where
+  | needNumber (conv : Char) (ty : String)
+  | charLen (n : Nat)
+  | charBadCodepoint
+  | charBadType (ty : String)
+  /-- a panic inside format.rs: site 0 = the host formatter refusing a precision above
+      65535; 1, 2 = an `unwrap()` on the host's `{:e}` output failing; 3 = `unreachable!()` -/
+  | hostPanic (site : Nat)
+  /-- driver-level: the request did not supply this host string -/
+  | needHost (kind : Char) (bits : Nat) (prec : Nat)
+deriving Repr, DecidableEq
+
+/-- Outcomes of `std.format` as a whole. -/
 inductive Err where
   | parse (e : PErr)
+  | render (e : RErr)
   | notEnough (got : Nat)
   | tooMany (expected got : Nat)
   | precNotNumber (ty : String)
   | precInvalid
   | widthNotNumber (ty : String)
   | widthInvalid
-  | needNumber (conv : Char) (ty : String)
-  | charLen (n : Nat)
-  | charBadCodepoint
-  | charBadType (ty : String)
   | objStarWidth | objStarPrec | objNeedKey
   | objMissingField (key : List Char)
   | fmtNotString (ty : String)
-  /-- a panic inside format.rs: the host formatter refusing a precision above 65535,
-      or an `unwrap()` on the host's `{:e}` output failing -/
-  | hostPanic (site : Nat)
-  /-- driver-level: the request did not supply this host string -/
-  | needHost (kind : Char) (bits : Nat) (prec : Nat)
 deriving Repr, DecidableEq
 
 /-- The trusted host digit generators (all on `|value|`, keyed by its bit pattern). -/
@@ -293,19 +299,19 @@ def HOST_LIMIT : Nat := 65535
 /-- `MAX_HOST_PREC` -/
 def MAX_HOST_PREC : Nat := 1100
 
-def callFixed (h : Host) (ab p : Nat) : Except Err (List Char) :=
+def callFixed (h : Host) (ab p : Nat) : Except RErr (List Char) :=
   if p > HOST_LIMIT then .error (.hostPanic 0)
   else match h.fixed ab p with
     | some s => .ok s
     | none => .error (.needHost 'F' ab p)
 
-def callExp (h : Host) (ab p : Nat) : Except Err (List Char) :=
+def callExp (h : Host) (ab p : Nat) : Except RErr (List Char) :=
   if p > HOST_LIMIT then .error (.hostPanic 0)
   else match h.exp ab p with
     | some s => .ok s
     | none => .error (.needHost 'E' ab p)
 
-def callLog (h : Host) (ab : Nat) : Except Err Int :=
+def callLog (h : Host) (ab : Nat) : Except RErr Int :=
   match h.log10floor ab with
   | some e => .ok e
   | none => .error (.needHost 'L' ab 0)
@@ -329,7 +335,7 @@ def natDigits (radix : Nat) (num : Nat → Char) (m : Nat) : List Char :=
 /-- `value_abs.to_string()` of an integer-valued double: exact decimal digits below
     2^53 (contract of the shortest-round-trip printer, validated by the differential
     run on every case), the host's string above. -/
-def displayInt (h : Host) (ab : Nat) : Except Err (List Char) :=
+def displayInt (h : Host) (ab : Nat) : Except RErr (List Char) :=
   let m := truncAbs ab
   if m = 0 then .ok ['0']
   else if m < TWO53 then .ok (natDigits 10 lowerNum m)
@@ -385,7 +391,7 @@ def trimZeros (s : List Char) (ensurePt : Bool) : List Char :=
 
 /-- `render_float_def` -/
 def renderFloatDef (h : Host) (b prec zp : Nat) (plus blank ensurePt trimZ : Bool) :
-    Except Err (List Char) :=
+    Except RErr (List Char) :=
   let hp := min prec MAX_HOST_PREC
   match callFixed h (absBits b) hp with
   | .error e => .error e
@@ -415,7 +421,7 @@ def fmtExpInt (e : Int) : List Char :=
 
 /-- `render_float_exp` -/
 def renderFloatExp (h : Host) (b prec zp : Nat) (plus blank ensurePt trimZ upper : Bool) :
-    Except Err (List Char) :=
+    Except RErr (List Char) :=
   let hp := min prec MAX_HOST_PREC
   match callExp h (absBits b) hp with
   | .error e => .error e
@@ -434,7 +440,7 @@ def renderFloatExp (h : Host) (b prec zp : Nat) (plus blank ensurePt trimZ upper
 
 /-- the `%g` / `%G` arm of `do_std_format_code` -/
 def renderFloatG (h : Host) (b fpprec zp : Nat) (plus blank alt upper : Bool) :
-    Except Err (List Char) :=
+    Except RErr (List Char) :=
   match (if isZero b then .ok 0 else callLog h (absBits b)) with
   | .error e => .error e
   | .ok exponent =>
@@ -444,19 +450,19 @@ def renderFloatG (h : Host) (b fpprec zp : Nat) (plus blank alt upper : Bool) :
       match (if truncAbs b = 0 then .ok 1
              else match displayInt h (absBits b) with
                | .ok d => .ok d.length
-               | .error e => .error e : Except Err Nat) with
+               | .error e => .error e : Except RErr Nat) with
       | .error e => .error e
       | .ok dbp => renderFloatDef h b (fpprec - dbp) zp plus blank alt (!alt)
 
 def validScalar (n : Nat) : Bool := n < 0xD800 || (0xDFFF < n && n < 0x110000)
 
-def needNum (k : Char) (v : Val) : Except Err Nat :=
+def needNum (k : Char) (v : Val) : Except RErr Nat :=
   match v with
   | .num b => .ok b
   | v => .error (.needNumber k (typeOf v))
 
 /-- `do_std_format_code` (`fw`, `prec`: the resolved numbers; `Percent` never gets here) -/
-def renderCode (h : Host) (c : Code) (fw prec : Nat) (v : Val) : Except Err (List Char) :=
+def renderCode (h : Host) (c : Code) (fw prec : Nat) (v : Val) : Except RErr (List Char) :=
   let fpprec := if c.prec.isSome then prec else 6
   let iprec := if c.prec.isSome then prec else 0
   let zp := if c.flags.zero && !c.flags.left then fw else 0
@@ -591,7 +597,7 @@ def stepArray (h : Host) (c : Code) (arr : List Val) (i : Nat) : Except Err (Lis
             | none => .error (.notEnough arr.length)
             | some item =>
               match renderCode h c fw prec item with
-              | .error e => .error e
+              | .error e => .error (.render e)
               | .ok s => .ok (padField c.flags.left fw s, i2 + 1)
 
 /-- The array machine from `(part_i, array_i)` with the output accumulated so far. -/
@@ -634,7 +640,7 @@ def stepObject (h : Host) (c : Code) (o : List (List Char × Val)) : Except Err 
           | none => .error (.objMissingField k)
           | some item =>
             match renderCode h c fw prec item with
-            | .error e => .error e
+            | .error e => .error (.render e)
             | .ok s => .ok (padField c.flags.left fw s)
 
 def fmtObjectGo (h : Host) (o : List (List Char × Val)) : List Part → List Char → Except Err (List Char)
@@ -750,26 +756,29 @@ def showPErr : PErr → String
   | .invalidConv c => s!"invalidConv:{c.toNat}"
   | .fuel => "modelFuel"
 
+def showRErr : RErr → String
+  | .needNumber k ty => s!"err needNumber:{k}:{ty}"
+  | .charLen n => s!"err charLen:{n}"
+  | .charBadCodepoint => "err charBadCodepoint"
+  | .charBadType ty => s!"err charBadType:{ty}"
+  | .hostPanic n => s!"panic site{n}"
+  | .needHost k b p =>
+    if k = 'F' ∨ k = 'E' then s!"needhost {hex16 b} {k}:{p}" else s!"needhost {hex16 b} {k}"
+
 def showErr : Err → String
   | .parse e => "err " ++ showPErr e
+  | .render e => showRErr e
   | .notEnough g => s!"err notEnough:{g}"
   | .tooMany e g => s!"err tooMany:{e}:{g}"
   | .precNotNumber ty => s!"err precNotNumber:{ty}"
   | .precInvalid => "err precInvalid"
   | .widthNotNumber ty => s!"err widthNotNumber:{ty}"
   | .widthInvalid => "err widthInvalid"
-  | .needNumber k ty => s!"err needNumber:{k}:{ty}"
-  | .charLen n => s!"err charLen:{n}"
-  | .charBadCodepoint => "err charBadCodepoint"
-  | .charBadType ty => s!"err charBadType:{ty}"
   | .objStarWidth => "err objStarWidth"
   | .objStarPrec => "err objStarPrec"
   | .objNeedKey => "err objNeedKey"
   | .objMissingField k => "err objMissingField:" ++ encodeChars k
   | .fmtNotString ty => s!"err fmtNotString:{ty}"
-  | .hostPanic n => s!"panic site{n}"
-  | .needHost k b p =>
-    if k = 'F' ∨ k = 'E' then s!"needhost {hex16 b} {k}:{p}" else s!"needhost {hex16 b} {k}"
 
 /-- `fmt render via=<fmt|pct> f=<val> arr|obj|one <v:..|k:..|H:..>...` -/
 def handleRender (args : List String) : Option String :=
